@@ -125,8 +125,6 @@ class C06(Property):
         return {'ref': ref, 'deviating': dev[:5], 'n_deviating': len(dev), 'chunkings': n}
 
     def requests(self, case):
-        if case['what'] == 'filter':
-            return []
         return [{'op': 'parse', 'reg': P.make_registry(REGS, True, True),
                  'chunks': [P.model_items(case['items'])], 'rootEnd': True, 'versionOk': True}]
 
@@ -134,7 +132,8 @@ class C06(Property):
         data, _ = P.build_document(case['items'])
         n = len(self.chunkings(case, data))
         if case['what'] == 'filter':
-            return {'ref_ok': True, 'deviating': [], 'n_deviating': 0, 'chunkings': n, 'idempotent': True}
+            # the filter accepts a document exactly when the parser machine does (undefined types or sources make it fail)
+            return {'ref_ok': replies[0]['err'] is None, 'deviating': [], 'n_deviating': 0, 'chunkings': n, 'idempotent': True}
         return {'ref': strip(P.model_view(replies[0], case['items'])), 'deviating': [], 'n_deviating': 0, 'chunkings': n}
 
     def oracle(self, case, obs):
